@@ -128,6 +128,10 @@ def stage_pbt(pid, stage, tier):
         os.makedirs(os.path.join(wd, "fails-%d" % k), exist_ok=True)
         if mode == "enum":
             cmd += ["--enum-shard", "%d/%d" % (k, shards)]
+        if cfg.get("dump_max"):
+            ddir = os.path.join(wd, "cases-%d" % k)
+            os.makedirs(ddir, exist_ok=True)
+            cmd += ["--dump-dir", ddir, "--dump-every", str(cfg.get("dump_every", 1)), "--dump-max", str(cfg["dump_max"])]
         jobs.append((cmd, env, cfg.get("timeout", 3600), os.path.join(wd, "log-%d.txt" % k)))
     t0 = time.time()
     results = run_parallel(jobs)
@@ -188,10 +192,12 @@ def sanitizer_summary(log):
 def stage_replays(pid, tier):
     """Regression tier: every saved case under replays/<pid>/<driver>/ is re-run without rapidcheck."""
     out = StageOutcome("regression_replays")
+    seen_drivers = set()
     t0 = time.time()
     for stage in PROPS[pid]["stages"]:
-        if stage["kind"] not in ("pbt",):
+        if stage["kind"] not in ("pbt",) or stage["driver"] in seen_drivers:
             continue
+        seen_drivers.add(stage["driver"])
         files = sorted(glob.glob(os.path.join(REPLAYS, pid, stage["driver"], "*.case")))
         if not files:
             continue
@@ -201,7 +207,7 @@ def stage_replays(pid, tier):
             log = os.path.join(wd, "log-%d.txt" % i)
             stats = os.path.join(wd, "stats-%d.json" % i)
             env = env_for(stage.get("env", {}))
-            rc, _ = run_proc(list(stage.get("wrapper", [])) + [binary, "--replay", f, "--stats", stats], env, 600, log)
+            rc, _ = run_proc(list(stage.get("replay_wrapper", stage.get("wrapper", []))) + [binary, "--replay", f, "--stats", stats], env, 600, log)
             st = load_stats(stats)
             if st:
                 out.stats.append(st)
@@ -230,7 +236,8 @@ def replay_once(pid, path, timeout=900):
         wd = os.path.join(BUILD, "work", pid, "confirm")
         os.makedirs(wd, exist_ok=True)
         log = os.path.join(wd, "replay-log.txt")
-        rc, _ = run_proc(list(stage.get("wrapper", [])) + [binary, "--replay", path, "--fork"], env_for(stage.get("env", {})), timeout, log)
+        wrapper = list(stage.get("replay_wrapper", stage.get("wrapper", [])))
+        rc, _ = run_proc(wrapper + [binary, "--replay", path] + ([] if wrapper else ["--fork"]), env_for(stage.get("env", {})), timeout, log)
         sys.stdout.write(read_tail(log, 3000))
         return rc != 0
     impl = STAGE_IMPL[stage["kind"]]
@@ -620,3 +627,50 @@ def stage_fuzz(pid, stage, tier, replay_path=None):
 
 
 register_stage("fuzz", stage_fuzz)
+
+
+# ---------------------------------------------------------------------------------------------------
+# memcheck stage: cases dumped by an earlier (native) stage of the same run are replayed under valgrind
+# ---------------------------------------------------------------------------------------------------
+VALGRIND = ["valgrind", "-q", "--error-exitcode=0", "--track-origins=no", "--show-mismatched-frees=no", "--num-callers=12", "--child-silent-after-fork=no"]
+
+
+def stage_memcheck(pid, stage, tier, replay_path=None):
+    out = StageOutcome(stage["name"])
+    out.driver = stage["driver"]
+    cfg = stage[tier]
+    binary = vfbuild.build_driver(stage["driver"], stage.get("variant", "plain"), stage["src"])
+    src_dir = os.path.join(BUILD, "work", pid, stage["cases_from"])
+    files = sorted(glob.glob(os.path.join(src_dir, "cases-*", "*.case")))[:cfg.get("max_cases", 300)]
+    if not files:
+        out.notes.append("no dumped cases found in %s" % src_dir)
+        return out
+    wd = workdir(pid, stage["name"])
+    procs = cfg.get("procs", 8)
+    chunks = [files[i::procs] for i in range(procs)]
+    jobs = []
+    for k, chunk in enumerate(chunks):
+        if not chunk:
+            continue
+        cmd = VALGRIND + [binary, "--replay"] + chunk + ["--stats", os.path.join(wd, "stats-%d.json" % k), "--faildir", wd]
+        jobs.append((cmd, env_for(), cfg.get("timeout", 3600), os.path.join(wd, "log-%d.txt" % k)))
+    t0 = time.time()
+    results = run_parallel(jobs)
+    out.wall = time.time() - t0
+    for k, (rc, _) in enumerate(results):
+        st = load_stats(os.path.join(wd, "stats-%d.json" % k))
+        if st:
+            out.stats.append(st)
+        log = jobs[k][3]
+        txt = read_tail(log, 400000)
+        m = re.search(r"^REPLAY-FAIL (\S+): (.*)$", txt, re.M)
+        if m and not out.failure:
+            out.failure = (m.group(1), m.group(2)[:1500], stage, log)
+        elif rc == "timeout":
+            out.notes.append("memcheck chunk %d hit the watchdog: inconclusive" % k)
+        elif rc not in (0, 1) and not out.failure:
+            out.notes.append("memcheck chunk %d exited with status %s" % (k, rc))
+    return out
+
+
+register_stage("memcheck", stage_memcheck)
